@@ -1263,6 +1263,9 @@ class Exec:
                 return idx
             self.safety(st, what, -idx <= nz, node)
             return nz + idx
+        if not self.quiet and self.provable(st, iz >= 0, timeout_ms=300):
+            self.safety(st, what, iz < nz, node)
+            return iz  # provably non-negative on this path: no wrap-around term
         self.safety(st, what, z3.And(iz >= -nz, iz < nz), node)
         return z3.If(iz < 0, iz + nz, iz)
 
@@ -1582,7 +1585,9 @@ class Exec:
                 ra, rb = to_real(a), to_real(b)
                 m = MULF(ra, rb)
                 if ra.eq(rb):
-                    st.pc.append(m >= 0)  # a square is non-negative (the only fact kept about MUL)
+                    st.pc.append(m >= 0)  # a square is non-negative
+                elif not self.quiet and self.provable(st, z3.And(ra > 0, rb > 0), timeout_ms=300):
+                    st.pc.append(m > 0)  # product of two positive factors (sign facts are the only ones kept about MUL)
                 return m
             return _arith(a, b, lambda x, y: x * y)
         if t is ast.Div:
@@ -1882,6 +1887,8 @@ class Exec:
         if isinstance(f, UFun):
             if f.on_call is not None:
                 f.on_call(self, st, args, node)
+            if len(args) == 1 and isinstance(args[0], PyList) and args[0].np:
+                return libmodels.np_map(self, args[0], lambda x: f.fn(x))  # interp1d objects map over arrays
             return f.fn(*args)
         if isinstance(f, ClassRef):
             return libmodels.construct(self, st, f, args, kwargs, node, mod)
